@@ -149,8 +149,32 @@ def nameStep (line : String) : String :=
         let s5 := (s4.setattr 1 (if occupyTarget then loc else own) (.int 1)).1
         let r := s5.set 0 (d kA) (.int 2) false
         resStr r.2 ++ "," ++ resStr (r.1.sget loc) ++ "," ++ resStr (r.1.sget own)
+      -- a REJECTED re-registration of the remapped key (its own name is locked by somebody else) leaves the key
+      -- addressing the remap target
+      let rejected : String :=
+        let s0 : BB := ({} : BB).newClient (d nsA) |>.1
+        let s1 := s0.newClient "" |>.1
+        let own := absNameS (clientNsS (d nsA)) (d kA)
+        let s2 := (s1.register 0 (d kA) (some .write) false (some loc)).1
+        let s3 := (s2.register 1 own (some .exclusive) false none).1
+        let s4 := (s3.register 1 loc (some .write) false none).1
+        let s5 := (s4.setattr 1 loc (.int 1)).1
+        let r := s5.register 0 (d kA) (some .write) false none
+        resStr r.2 ++ "," ++ resStr (r.1.getattr 0 (d kA)).2
+      -- unregistering the remapped key (somebody else still uses the target) and registering it again without a remap
+      -- makes it address its own name
+      let again : String :=
+        let s0 : BB := ({} : BB).newClient (d nsA) |>.1
+        let s1 := s0.newClient "" |>.1
+        let own := absNameS (clientNsS (d nsA)) (d kA)
+        let s2 := (s1.register 0 (d kA) (some .write) false (some loc)).1
+        let s3 := (s2.register 1 loc (some .write) false none).1
+        let s4 := (s3.unregisterKey 0 (d kA) true).1
+        let s5 := (s4.register 0 (d kA) (some .write) false none).1
+        let s6 := (s5.setattr 0 (d kA) (.int 5)).1
+        resStr (s6.sget own) ++ "," ++ resStr (s6.sget loc)
       -- `Client.absolute_name(key)` of a registered key is the key's own absolute name, remapped or not
-      "R " ++ run true ++ "|" ++ run false ++ "|" ++ absNameS (clientNsS (d nsA)) (d kA)
+      "R " ++ run true ++ "|" ++ run false ++ "|" ++ absNameS (clientNsS (d nsA)) (d kA) ++ "|" ++ rejected ++ "|" ++ again
   | _ => "bad-op"
 
 end Bb
